@@ -151,22 +151,28 @@ def findDelim (flags : Str) : List Char → Option Char → Except Code (Option 
       | none => findDelim flags ds (some d)
     else findDelim flags ds found
 
+/-- the largest width or precision fmt accepts (`maxFormatNumber`) -/
+def maxFormatNumber : Nat := 1000000
+
 def parseFormat (orig : Str) (sep sep2 : Option Str) : Except Code Fmt :=
   match matchPattern orig with
   | none => .error .invalidSpec
   | some p => do
-    let hasPlus ← hasOnce p.flags '+'
     let hasSpace ← hasOnce p.flags ' '
-    let plus : Option Char := if hasSpace then some ' ' else if hasPlus then some '+' else none
+    let hasPlus ← hasOnce p.flags '+'
+    -- "A plus sign overrides a space"
+    let plus : Option Char := if hasPlus then some '+' else if hasSpace then some ' ' else none
     let found ← findDelim p.flags delimiters none
     let ldelim := match found with
       | some d => some d
-      | none => if plus = some ' ' then some ' ' else none
-    let left ← hasOnce p.flags '-'
-    let alt ← hasOnce p.flags '#'
-    let zeroPad ← hasOnce p.flags '0'
-    pure { alt := alt, left := left, zeroPad := zeroPad, letter := p.letter, plus := plus, prec := p.prec, width := p.width,
-           ldelim := ldelim, sep := sep, sep2 := sep2, orig := orig }
+      | none => if hasSpace then some ' ' else none
+    if p.width.getD 0 > maxFormatNumber || p.prec.getD 0 > maxFormatNumber then .error .invalidSpec
+    else do
+      let left ← hasOnce p.flags '-'
+      let alt ← hasOnce p.flags '#'
+      let zeroPad ← hasOnce p.flags '0'
+      pure { alt := alt, left := left, zeroPad := zeroPad, letter := p.letter, plus := plus, prec := p.prec, width := p.width,
+             ldelim := ldelim, sep := sep, sep2 := sep2, orig := orig }
 
 /-- `newFormat` -/
 def newFormat (orig : Str) : Except Code Fmt := parseFormat orig none none
@@ -417,9 +423,15 @@ def gPrc (f : Fmt) : Int :=
   | some p => p
   | none => if f.alt then -1 else 6
 
+/-- `totLen`: the characters `%g` printed, not counting a sign -/
+def gDigits (str : Str) : Int :=
+  match str with
+  | c :: cs => if c = '+' || c = '-' || c = ' ' then cs.length else str.length
+  | [] => 0
+
 /-- how many zeros are `missing` after the digits `%g` printed -/
 def gMissing (f : Fmt) (str : Str) : Int :=
-  if gPrc f ≥ 0 then (if str.contains '.' then gPrc f - ((str.length : Int) - 1) else gPrc f - str.length) else 0
+  if gPrc f ≥ 0 then (if str.contains '.' then gPrc f - (gDigits str - 1) else gPrc f - gDigits str) else 0
 
 /-- "Impossible to add a fraction part. Force scientific notation" -/
 def gForced (f : Fmt) (str : Str) : Bool := decide (gPrc f ≥ 0) && !str.contains '.' && decide (gMissing f str = 0)
@@ -455,8 +467,13 @@ def defaultFormatS : Fmt := { defaultFormatP with alt := true, orig := ['%', '#'
 /-! ### the scalar kinds -/
 
 /-- hand-written `p b B` branch: the sign that is written in front of the radix prefix (binary only; the decimal
-    program form keeps its sign with the digits) -/
-def pbbSign (f : Fmt) (i : Int) : Str := if decide (i < 0) && f.letter ≠ 'p' then ['-'] else []
+    program form keeps its sign with the digits): `-`, else the `+` / blank of the sign flag -/
+def pbbSign (f : Fmt) (i : Int) : Str :=
+  if f.letter = 'p' then []
+  else if i < 0 then ['-']
+  else match f.plus with
+    | some c => [c]
+    | none => []
 
 /-- … `intString`: strconv.FormatInt without the separated sign; `%.Np` cuts the text to N characters -/
 def pbbDigits (f : Fmt) (i : Int) : Str :=
@@ -469,15 +486,20 @@ def pbbDigits (f : Fmt) (i : Int) : Str :=
 def pbbPrefix (f : Fmt) (i : Int) : Str :=
   if f.alt && i ≠ 0 then (if f.letter = 'b' then ['0', 'b'] else if f.letter = 'B' then ['0', 'B'] else []) else []
 
+/-- … `zeroPad`: to the precision; with the `0` flag (no `-`, no precision, not `p`) to the width -/
+def pbbZeroPad (f : Fmt) (i : Int) : Nat :=
+  if f.zeroPad && !f.left && f.prec.isNone && f.letter ≠ 'p' then
+    f.width.getD 0 - (pbbSign f i).length - (pbbPrefix f i).length - (pbbDigits f i).length
+  else f.prec.getD 0 - (pbbDigits f i).length
+
 /-- the hand-written `p b B` branch of `integerValue.ToString`: blanks to the width (on the right with `-`), sign,
-    prefix, zeros (blanks for `p`) to the precision, digits -/
+    prefix, zeros (blanks for `p`), digits -/
 def intPbB (f : Fmt) (i : Int) : Str :=
   let sign := pbbSign f i
   let ds := pbbDigits f i
   let pfx := pbbPrefix f i
-  let numWidth := f.prec.getD 0
-  let zeroPad := numWidth - ds.length
-  let spacePad := f.width.getD 0 - (sign.length + pfx.length + max numWidth ds.length)
+  let zeroPad := pbbZeroPad f i
+  let spacePad := f.width.getD 0 - (sign.length + pfx.length + ds.length + zeroPad)
   (if f.left then [] else spaces spacePad) ++ sign ++ pfx ++
   (if f.letter = 'p' then spaces zeroPad else zeros zeroPad) ++ ds ++ (if f.left then spaces spacePad else [])
 
@@ -813,20 +835,19 @@ def isHexDigit (c : Char) : Bool := isDigit c || ('a' ≤ c && c ≤ 'f') || ('A
 def isOctDigit (c : Char) : Bool := '0' ≤ c && c ≤ '7'
 def isBinDigit (c : Char) : Bool := c = '0' || c = '1'
 
-/-- `IntegerPattern`: `\A[+-]?\s*(?:0|[1-9]\d*|0[xX][0-9A-Fa-f]+|0[0-7]+|0[bB][01]+)\z` -/
+/-- `IntegerPattern`: `\\A[+-]?\\s*(?:\\d+|0[xX][0-9A-Fa-f]+|0[bB][01]+)\\z` -/
 def matchIntegerPattern (s : Str) : Bool :=
   let s := match s with
     | '+' :: r => r
     | '-' :: r => r
     | _ => s
   match s.dropWhile isReSpace with
-  | ['0'] => true
-  | '0' :: c :: r =>
-    if c = 'x' || c = 'X' then !r.isEmpty && r.all isHexDigit
-    else if c = 'b' || c = 'B' then !r.isEmpty && r.all isBinDigit
-    else isOctDigit c && r.all isOctDigit
-  | c :: r => ('1' ≤ c && c ≤ '9') && r.all isDigit
   | [] => false
+  | '0' :: c :: r =>
+    if c = 'x' || c = 'X' then (!r.isEmpty && r.all isHexDigit) || false
+    else if c = 'b' || c = 'B' then (!r.isEmpty && r.all isBinDigit)
+    else isDigit c && r.all isDigit
+  | ds => ds.all isDigit
 
 /-- value of a digit for strconv.ParseUint: 0-9, a-z, A-Z -/
 def parseDigit (c : Char) : Option Nat :=
@@ -859,10 +880,27 @@ inductive IntRes where
   | reported (c : Code)
   deriving DecidableEq, Repr
 
+/-- `integerFromString`: the sign, the white space after it and the prefix that denotes the given radix are taken off
+    before strconv.ParseInt sees the text -/
+def integerFromString (s : Str) (radix : Nat) : Option Int :=
+  let sign : Str := match s with
+    | '+' :: _ => ['+']
+    | '-' :: _ => ['-']
+    | _ => []
+  let s := (match s with
+    | '+' :: r => r
+    | '-' :: r => r
+    | _ => s).dropWhile isReSpace
+  let s := match s with
+    | '0' :: c :: r =>
+      if !r.isEmpty && ((radix = 16 && (c = 'x' || c = 'X')) || (radix = 2 && (c = 'b' || c = 'B'))) then r else s
+    | _ => s
+  goParseInt (sign ++ s) radix
+
 /-- `px.New(c, Integer, text, radix)`: the signature check (Convertible = Pattern[IntegerPattern]) then intFromConvertible -/
 def newInteger (s : Str) (radix : Nat) : IntRes :=
   if !matchIntegerPattern s then .reported .illegalArguments
-  else match goParseInt s radix with
+  else match integerFromString s radix with
     | some i => .int i
     | none => .reported .notInteger
 
